@@ -31,6 +31,16 @@ fn solo_std(rep: &mut Report, property: &str, tier: Tier, with_aggregation: bool
         sc.max_depth = tier.pick(4, 5);
         solo::run(rep, property, "blocks+tcs", sc);
     }
+    // payload-resumed processing path: blocks whose batch is missing, the batch arriving later
+    for &n in tier.pick(vec![0usize], vec![0usize, 3]).iter() {
+        let mut sc: SoloCfg = solo::default_cfg(n, tier.pick(2, 3), tier);
+        sc.with_votes = false;
+        sc.with_timeouts = false;
+        sc.stale_variants = false;
+        sc.with_payload = true;
+        sc.max_depth = tier.pick(5, 4);
+        solo::run(rep, property, "blocks+payload", sc);
+    }
     if with_aggregation {
         for &n in &nodes {
             // individual votes and timeouts of the others as well (smaller round bound)
@@ -215,7 +225,7 @@ pub fn replay(property: &str, path: &str) -> i32 {
             };
             let ln = live.get_mut(&node).unwrap();
             let res = ln.apply(&uni, ev);
-            let desc = match ev { Ev::Timer => "timer expires".to_string(), Ev::Deliver(m) => format!("deliver {}", uni.msg(m).desc) };
+            let desc = match ev { Ev::Timer => "timer expires".to_string(), Ev::Batch(k) => format!("batch {} arrives in the store", k), Ev::Deliver(m) => format!("deliver {}", uni.msg(m).desc) };
             report(node, k, desc, &res);
             hit |= res.findings.iter().any(|f| f.property == property);
         }
@@ -242,12 +252,14 @@ pub fn replay(property: &str, path: &str) -> i32 {
             let e = e.as_str().unwrap_or("");
             let ev = if e == "timer" {
                 Ev::Timer
+            } else if let Some(k) = e.strip_prefix("batch:") {
+                Ev::Batch(k.parse().unwrap_or(0))
             } else {
                 let m: consensus::verif::ConsensusMessage = bincode::deserialize(&unhex(e)).unwrap();
                 Ev::Deliver(uni.intern(m))
             };
             let res = ln.apply(&uni, ev);
-            let desc = match ev { Ev::Timer => "timer expires".to_string(), Ev::Deliver(m) => format!("deliver {}", uni.msg(m).desc) };
+            let desc = match ev { Ev::Timer => "timer expires".to_string(), Ev::Batch(k) => format!("batch {} arrives in the store", k), Ev::Deliver(m) => format!("deliver {}", uni.msg(m).desc) };
             report(node, k, desc, &res);
             hit |= res.findings.iter().any(|f| f.property == property);
         }
